@@ -52,7 +52,7 @@ def main():
                 continue
             p = subprocess.run([os.path.join(V, 'check'), prop, '--tier', tier, '--replay-none'] if False else [os.path.join(V, 'check'), prop, '--tier', tier],
                                cwd=V, stdout=subprocess.PIPE, stderr=subprocess.STDOUT, text=True,
-                               env=dict(os.environ, VERIF_NO_EVIDENCE='1'))
+                               env=dict(os.environ, VERIF_NO_EVIDENCE='1', VERIF_SKIP_MODEL='1'))
             v = [l for l in p.stdout.splitlines() if l.startswith('VIOLATION')]
             res[m] = {0: 'SURVIVED', 1: 'KILLED'}.get(p.returncode, 'ERROR(rc %d)' % p.returncode)
             if p.returncode == 1:
